@@ -65,7 +65,7 @@ def bbox_matrix_text(b):
 # users
 # ------------------------------------------------------------------------------------------------
 def gen_user(rng, i, paint):
-    kinds = ['rect', 'rect', 'path', 'line', 'text', 'use'] + (['marker', 'inherit'] if paint else ['group'])
+    kinds = ['rect', 'rect', 'path', 'line', 'text', 'use'] + (['marker', 'inherit'] if paint else ['group', 'groupz', 'groupz'])
     k = rng.choice(kinds)
     x, y = dy(rng, 5, 150, 2), dy(rng, 5, 120, 2)
     w, h = dy(rng, 8, 70, 2), dy(rng, 8, 60, 2)
@@ -90,6 +90,14 @@ def user_elem(u, attr):
     if k == 'group':
         return '', ('<g id="%s" %s><rect x="%s" y="%s" width="%s" height="%s"/><rect x="%s" y="%s" width="10" height="12"/></g>'
                     % (uid, attr, fs(x), fs(y), fs(w), fs(h), fs(x + w + 4), fs(y + 3)))
+    if k == 'groupz':
+        # the object box of a group is the union of its children's boxes INCLUDING child groups (nested g with own opacity /
+        # transform) around zero-width or zero-height geometry; only a child group without any content is skipped
+        return '', ('<g id="%s" %s><rect x="%s" y="%s" width="%s" height="%s"/>'
+                    '<g opacity="0.75"><path d="M %s %s L %s %s" fill="none" stroke="#a03060" stroke-width="3"/></g>'
+                    '<g transform="translate(0 2)"><g><path d="M %s %s L %s %s" fill="none" stroke="#30a060" stroke-width="3"/></g></g><g/></g>'
+                    % (uid, attr, fs(x), fs(y), fs(w), fs(h), fs(x - 6), fs(y + h + 8), fs(x + w + 12), fs(y + h + 8),
+                       fs(x + w + 20), fs(y - 4), fs(x + w + 20), fs(y + h)))
     if k == 'inherit':   # paint inherited from the parent group: resolved with the shape's own box
         return '', ('<g %s><rect id="%s" x="%s" y="%s" width="%s" height="%s"/></g>' % (attr, uid, fs(x), fs(y), fs(w), fs(h)))
     if k == 'marker':
@@ -112,6 +120,11 @@ def exact_box(u):
         return [u['x'], u['y'], u['w'], 2 * u['h']]
     if k == 'line':
         return [u['x'], u['y'], u['w'], Fraction(0)]
+    if k == 'groupz':
+        # rect (x, y, w, h)  U  horizontal line y+h+8 from x-6 to x+w+12  U  vertical line x+w+20 from y-4+2 to y+h+2
+        x1, x2 = u['x'] - 6, u['x'] + u['w'] + 20
+        y1, y2 = u['y'] - 2, u['y'] + u['h'] + 8
+        return [x1, y1, x2 - x1, y2 - y1]
     if k == 'group':
         x2 = max(u['x'] + u['w'], u['x'] + u['w'] + 14)
         y1 = min(u['y'], u['y'] + 3)
@@ -188,6 +201,7 @@ def gen_def(rng, kind):
         d['prim'] = rng.choice(['blur', 'blur1', 'offset', 'flood', 'offset-sub', 'shadow', 'shadow1', 'morph', 'morph1', 'displace'])
         d['p'] = [rng.choice([Fraction(1, 16), Fraction(1, 8), Fraction(1, 32)]), rng.choice([Fraction(1, 16), Fraction(1, 8)])]
         d['sub'] = [Fraction(1, 8), Fraction(1, 4), Fraction(1, 2), Fraction(1, 2)]
+        d['fhref'] = rng.choice([None, None, 'own', 'own-only', 'inherit'])
         if d['prim'] == 'displace' and d['rect'] is None and d['units'] == 'obb':
             d['rect'] = [Fraction(-1, 4), Fraction(-1, 4), Fraction(3, 2), Fraction(3, 2)]     # exact in f32: no ceil flip of the region
     return d
@@ -271,9 +285,22 @@ def def_markup_A(rng, d):
             a += ' filterUnits="userSpaceOnUse" x="0" y="0" width="%d" height="%d"' % (W, H)
         elif d['rect']:
             a += ' x="%s" y="%s" width="%s" height="%s"' % tuple(frac_attr(rng, v) for v in d['rect'])
-        if d['pu'] == 'obb':
-            a += ' primitiveUnits="objectBoundingBox"'
-        return '<filter id="d"%s>%s</filter>' % (a, filter_prims(d, None))
+        PU = {'obb': 'objectBoundingBox', 'user': 'userSpaceOnUse'}
+        fh = d.get('fhref')
+        if not fh:
+            if d['pu'] == 'obb':
+                a += ' primitiveUnits="objectBoundingBox"'
+            return '<filter id="d"%s>%s</filter>' % (a, filter_prims(d, None))
+        # the primitives come from an href template; primitiveUnits is resolved from the referenced filter ITSELF first
+        # (own attribute), then along the href chain (SVG rules; the effective value is d['pu'])
+        other = 'user' if d['pu'] == 'obb' else 'obb'
+        if fh == 'own':          # own attribute wins over a contradicting template
+            own, tpl = ' primitiveUnits="%s"' % PU[d['pu']], ' primitiveUnits="%s"' % PU[other]
+        elif fh == 'own-only':   # own attribute, template silent
+            own, tpl = ' primitiveUnits="%s"' % PU[d['pu']], ''
+        else:                    # inherited from the template
+            own, tpl = '', ' primitiveUnits="%s"' % PU[d['pu']]
+        return ('<filter id="ft"%s>%s</filter><filter id="d" xlink:href="#ft"%s%s/>' % (tpl, filter_prims(d, None), a, own))
     raise ValueError(k)
 
 
@@ -941,7 +968,7 @@ def run(ctx):
                                                          frect(d['rect']), frect(B), obs_rect, obs_ct))
                 p_idx.append(ci)
         elif kind == 'clip':
-            if all(u['kind'] in ('rect', 'path', 'group', 'line') for u in users):
+            if all(u['kind'] in ('rect', 'path', 'group', 'groupz', 'line') for u in users):
                 chain = []
                 if d['link']:
                     mine, theirs = d['link'].split('-')
